@@ -93,6 +93,8 @@ func c02Specs(tier string) []*h.SeqSpec {
 			ops = append(ops, opDeleteTag("C02", repo, t))
 		}
 		ops = append(ops, opDeleteMan("C02", repo, f, "I1"), opDeleteMan("C02", repo, f, "I2"), opDeleteMan("C02", repo, f, "X2"))
+		// a docker manifest list over an untagged docker image: deleting the list by digest leaves the image
+		ops = append(ops, opPushMan("C02", repo, f, "D1", ""), opDeleteMan("C02", repo, f, "DL"))
 		ops = append(ops, h.Op{Name: "delete blob b4", Do: func(w *h.World) []h.Violation {
 			m := regM(w).Repo(repo)
 			r := w.Delete("/v2/" + repo + "/blobs/" + f.Items["b4"].Dig)
